@@ -54,6 +54,11 @@ pub open spec fn sub_operand(sub: Expr, again: bool, cached: Option<ExprType>, g
     if sub is Nothing { ExprType::Nothing } else if simple_sub(sub) || !again { g.sub_result->Some_0 } else { cached->Some_0 }
 }
 // the operand names this variable
+// the operand that is sign-extended designates the element with the index the subscript produced (X, Y, or a constant)
+pub open spec fn same_index(e: ExprType, sub: Option<ExprType>) -> bool {
+    sub is Some ==> ((sub->Some_0 is X ==> e is AbsoluteX) && (sub->Some_0 is Y ==> e is AbsoluteY)
+        && (sub->Some_0 is Immediate ==> e is Absolute && e->Absolute_2 == sub->Some_0->Immediate_0))
+}
 pub open spec fn names(e: ExprType, v: Seq<char>) -> bool {
     match e { ExprType::Absolute(n, _, _) => n@ == v, ExprType::AbsoluteX(n) => n@ == v, ExprType::AbsoluteY(n) => n@ == v, _ => false }
 }
@@ -84,7 +89,7 @@ STUBS = """
     { unimplemented!() }
     #[verifier::external_body]
     fn generate_sign_extend(&mut self, expr: ExprType, pos: usize) -> (res: Result<ExprType, Error>)
-        requires names(expr, old(self).gh@.widening_of), //@ C01,C17:sign-extension-of-the-element-named
+        requires names(expr, old(self).gh@.widening_of) && same_index(expr, old(self).gh@.sub_result), //@ C01,C17:sign-extension-of-the-element-named
         ensures final(self).compiler_state == old(self).compiler_state, final(self).warnings == old(self).warnings, final(self).sub_output == old(self).sub_output,
             final(self).saved_y == old(self).saved_y,
             res is Ok ==> final(self).gh@ == (G { widened: true, ..old(self).gh@ }),
